@@ -62,6 +62,12 @@ def handle (j : Json) : Json :=
       ("deps", mkArr (ts.map fun t => mkArr [ofTok t.name, ofToks (expandWild ts t), ofToks (finalDeps ts t)])),
       ("head", planJson (planGen ts false args dflt single)),
       ("pinned", planJson (planGen ts true args dflt single)),
+      ("cli", planJson (planCli ts args dflt single)),
+      ("cli_args", ofToks (stripVars args)),
+      ("cli_crash", Json.bool (processArgsCrashes args)),
+      ("cli_pos", mkArr ((match selArgs (stripVars args) dflt with
+          | none => []
+          | some a => pfPos pts (a.length + 1) [] a).map fun (n, vs) => mkArr [ofTok n, ofToks vs])),
       ("spec", planJson (planGen ts false args dflt single)),
       ("reinit", Json.bool reinit),
       ("pos", mkArr (pos.map fun (n, vs) => mkArr [ofTok n, ofToks vs])),
@@ -71,10 +77,10 @@ def handle (j : Json) : Json :=
         let o := jobj j "obs"
         let obs : Obs := { exit := jnat o "exit", processed := toks o "processed", started := toks o "started",
                            ran := toks o "ran", actionsOnly := jbool o "actions_only" }
-        let chunked := match planGen ts false args dflt single with
+        let chunked := match planCli ts args dflt single with
           | .ok p => chunkedB p.tasks p.sel obs.started
           | .error _ => true
-        [("monitor", ofStrs (monitor ts args dflt single obs)), ("chunked", Json.bool chunked)]
+        [("monitor", ofStrs (monitor ts (stripVars args) dflt single obs)), ("chunked", Json.bool chunked)]
       else []
     Json.mkObj (base ++ mon)
 
